@@ -245,12 +245,15 @@ fn add_stage(
         None => return Err(TyperError::PipelineEntryPointFunctionUnknown(location)),
     };
 
-    let function_impl = context
+    // The function may be an intrinsic or may only have been declared
+    let function_impl = match context
         .module
         .function_registry
         .get_function_implementation(func_id)
-        .as_ref()
-        .unwrap();
+    {
+        Some(function_impl) => function_impl,
+        None => return Err(TyperError::PipelineEntryPointFunctionUnknown(location)),
+    };
 
     for attribute in &function_impl.attributes.clone() {
         if let ir::FunctionAttribute::NumThreads(x, y, z) = attribute {
